@@ -352,7 +352,13 @@ func featuresOf(c *core.Case) *features {
 			f.ringOverflow = true
 			oRing = append(oRing, origin{pos: i, reg: rd, hasReg: true})
 		}
-		if pos, ok := slowAt[rd]; ok && i-pos <= 16 && !readsReg(in, rd) {
+		// a load that misses every cache level stays in flight for ~360 cycles,
+		// two instructions a cycle: the window of a load itself is wide
+		win := 16
+		if pos, ok := slowAt[rd]; ok && inst(pos).Op.IsLoad() {
+			win = 128
+		}
+		if pos, ok := slowAt[rd]; ok && i-pos <= win && !readsReg(in, rd) {
 			// (a younger writer that reads the register waits for the older one)
 			f.slowWaw = true
 			oSlow = append(oSlow, origin{pos: i, reg: rd, hasReg: true})
